@@ -18,8 +18,13 @@ def ls(prop, q=300, t=4000, shards_q=4, shards_t=16, flavors=None, profile=None)
 
 
 def ls_async_quick(prop):
-    """a slice of the lockstep histories on two async executors already in the quick tier"""
-    return ls(prop, q=60, t=1500, shards_q=2, shards_t=8, flavors="tokio-mt,thread-per-task")
+    """a slice of the lockstep histories on async executors already in the quick tier"""
+    return ls(prop, q=150, t=1500, shards_q=2, shards_t=8, flavors="tokio-mt,thread-per-task,seeded")
+
+
+def hammer(q=20, t=300):
+    """hostile 'hammer' mode: 8-16 threads writing 1-3 keys without delays, validator 'only greater weight'"""
+    return dict(engine="hostile", shards=dict(quick=4, thorough=16), args=["--quick-n", str(q), "--thorough-n", str(t), "--mode", "hammer"])
 
 
 def pairs(q=30, t=400):
@@ -144,12 +149,12 @@ PLAN = {
         assumptions=["collision-free keys; no ValueRefMut::write (drops the replaced value in the caller by design)"],
     ),
     "C09": dict(
-        stages=[ls("C09", q=400), ho("C09", q=40), ga()],
+        stages=[ls("C09", q=400), ho("C09", q=40), hammer(), ga()],
         rule=LS + "; validators: never / only-greater / new-id-even / value-dependent; Coster on",
         clauses=["insert_if_present on absent => false, no callback, cache unchanged", "on resident => update of value and cost", "vetoed insert / insert_with_ttl / insert_if_present: value and remaining TTL unchanged, still reclaimed at the old deadline",
                  "expired-but-unswept key: both outcomes accepted (the statement does not decide it)",
                  "concurrent / gated (also while the key's first insert is still buffered): insert_if_present returns true only if it replaced a resident value inside the call; a false one leaves no trace of its value"],
-        minimum=dict(quick=dict(ls_vetoes=1000, ls_updates=2000)),
+        minimum=dict(quick=dict(ls_vetoes=1000, ls_updates=2000, ho_c09_replacements_checked_against_validator=2000)),
         assumptions=[],
     ),
     "C10": dict(
